@@ -8,6 +8,7 @@ import (
 
 	"github.com/pentops/j5/internal/verifh/j5sgen"
 	"github.com/pentops/j5/internal/verifh/j5sreal"
+	"github.com/iancoleman/strcase"
 	"github.com/pentops/j5/internal/verifh/vh"
 )
 
@@ -50,6 +51,9 @@ func genEvolve(h *vh.H, i int) string {
 		switch c.Kind {
 		case "fields", "oneof":
 			pr := g.FreshProp(c.Kind == "oneof", k)
+			if cp := captureAppend(h, pkg, c); cp != nil && h.Chance(1, 4) {
+				pr = cp
+			}
 			if c.Keys && h.Chance(1, 2) {
 				// a further primary key appended to a hand-written KEYS object (after its non-primary keys)
 				pr = &j5sgen.Prop{Name: fmt.Sprintf("zzPrimary%d", k), Field: &j5sgen.Field{Kind: j5sgen.FKey, Fmt: vh.Pick(h, []string{"none", "uuid", "id62"}),
@@ -74,6 +78,79 @@ func genEvolve(h *vh.H, i int) string {
 		style = 1 + h.Rng.Uint64N(1<<30)
 	}
 	return fmt.Sprintf("evolve %s %s %s %d", b.Sexp().String(), j5sgen.S(pkg.Name).String(), j5sgen.EditsSexp(edits).String(), style)
+}
+
+// captureAppend: a field appended to the top-level object Foo whose inline type takes the default name Foo
+// (`field foo object { … }` gives the nested message Foo.Foo). Inside Foo, the relative names by which the other
+// inline types of Foo are referred to (Foo.Bar) then start at the nested Foo. Half of the time the new inline
+// object repeats an inline-typed field of Foo, so that Foo.Foo.Bar exists as well. nil when c is not such an object.
+func captureAppend(h *vh.H, pkg *j5sgen.Pkg, c *j5sgen.Container) *j5sgen.Prop {
+	if !c.User || c.Kind != "fields" || len(c.Path) != 1 || c.Path[0].Kind != "el" {
+		return nil
+	}
+	o := pkg.Files[c.FileIdx].Elems[c.Path[0].Idx].Object
+	if o == nil || o.Oneof {
+		return nil
+	}
+	name := strcase.ToLowerCamel(o.Name)
+	if strcase.ToCamel(name) != o.Name {
+		return nil
+	}
+	var inl []*j5sgen.Prop
+	for _, p := range o.Props {
+		if strcase.ToSnake(p.Name) == strcase.ToSnake(name) {
+			return nil
+		}
+		if r := p.Field.Ref; r != nil && r.Kind == j5sgen.RInlObj && r.Name == "" {
+			inl = append(inl, p)
+		}
+	}
+	for _, n := range o.Nested {
+		if (n.Object != nil && n.Object.Name == o.Name) || (n.Enum != nil && n.Enum.Name == o.Name) {
+			return nil
+		}
+	}
+	if len(inl) == 0 {
+		return nil
+	}
+	t := &j5sgen.TRef{Kind: j5sgen.RInlObj, Props: []*j5sgen.Prop{{Name: "zzInner", Field: &j5sgen.Field{Kind: j5sgen.FString}}}}
+	if h.Chance(1, 2) {
+		twin := vh.Pick(h, inl)
+		t.Props = append(t.Props, &j5sgen.Prop{Name: twin.Name, Field: &j5sgen.Field{Kind: j5sgen.FObject,
+			Ref: &j5sgen.TRef{Kind: j5sgen.RInlObj, Props: []*j5sgen.Prop{{Name: "zzTwin", Field: &j5sgen.Field{Kind: j5sgen.FBool}}}}}})
+	}
+	return &j5sgen.Prop{Name: name, Field: &j5sgen.Field{Kind: j5sgen.FObject, Ref: t}}
+}
+
+// isCaptureAppend recognises the class by the edit, not by the error it provokes.
+func isCaptureAppend(b *j5sgen.Bundle, pkgName string, edits []*j5sgen.Edit) bool {
+	p := b.Pkg(pkgName)
+	if p == nil {
+		return false
+	}
+	for _, e := range edits {
+		if e.Kind != "appendfield" || len(e.Path) != 1 || e.Path[0].Kind != "el" || e.FileIdx < 0 || e.FileIdx >= len(p.Files) {
+			continue
+		}
+		f := p.Files[e.FileIdx]
+		if e.Path[0].Idx < 0 || e.Path[0].Idx >= len(f.Elems) || f.Elems[e.Path[0].Idx].Object == nil {
+			continue
+		}
+		fld := e.Prop.Field
+		if fld.Items != nil {
+			fld = fld.Items
+		}
+		if r := fld.Ref; r != nil && r.Kind != j5sgen.RRef {
+			eff := r.Name
+			if eff == "" {
+				eff = strcase.ToCamel(e.Prop.Name)
+			}
+			if eff == f.Elems[e.Path[0].Idx].Object.Name {
+				return true
+			}
+		}
+	}
+	return false
 }
 
 // element table of a compiled package, per PROTOCOL §5
@@ -139,9 +216,19 @@ func execEvolve(h *vh.H, op string, co *compileOp) string {
 		h.Fail("evolve-rejected:"+errSig(r1.Err), op, r1.Err.Error())
 		return "err"
 	}
+	capture := isCaptureAppend(co.b, co.pkg, edits)
+	if capture {
+		h.Count("evolve.capture-append")
+	}
 	if r2.Class == "err" {
 		// the edited package is still within the documented language
 		h.Count("evolve.edited-err")
+		if capture {
+			// one root cause whatever the linker says: the appended inline type is named like the object it is in
+			h.Count("evolve.capture-append.rejected")
+			h.Fail("c13-capture-append:rejected", op, r2.Err.Error()+"\n"+dumpSources(mb2))
+			return "err"
+		}
 		h.Fail("evolve-edited-rejected:"+errSig(r2.Err), op, r2.Err.Error()+"\n"+dumpSources(mb2))
 		return "err"
 	}
@@ -163,7 +250,11 @@ func execEvolve(h *vh.H, op string, co *compileOp) string {
 	if out2 != j5sreal.SkeletonString(s1) {
 		h.Nontrivial(out2) // the edit changed the output
 	}
-	if changed > 0 {
+	if changed > 0 && capture {
+		h.Count("evolve.capture-append.retargeted")
+		h.Fail("c13-capture-append:retargeted", op,
+			fmt.Sprintf("%d elements of compile(P) changed, first: %s was [%s] now [%s]\n%s", changed, firstKey, before[firstKey], now[firstKey], dumpSources(mb2)))
+	} else if changed > 0 {
 		kind := strings.SplitN(firstKey, " ", 2)[0]
 		h.Fail("c13-changed:"+kind+":"+edits[0].Kind, op,
 			fmt.Sprintf("%d elements of compile(P) changed, first: %s was [%s] now [%s]", changed, firstKey, before[firstKey], now[firstKey]))
